@@ -91,14 +91,17 @@ CLAIMED["C01"] = dict(
          + KKC_NOTE, design="5/C01")
 CLAIMED["C02"] = dict(
     engine="lean+corr_kkc",
-    technique="Lean 4 proof of the Viterbi step (bestScore = max over connectable predecessors) on the model + exhaustive path "
-              "enumeration oracle on the implementation's own lattice and scores + exact list equality model vs implementation",
-    text="C02_forward_step_{ge,attained,none}, C02_length_and_distinct, C02_is_connectable_path (every result is a connectable "
-         "bos-to-eos chain whose reported score is its path score) and C02_deterministic are kernel-checked; the five conjuncts of "
-         "the n-best property are checked against exhaustive enumeration of every connectable path of the implementation's "
-         "lattice for every generated case.",
-    note="PARTIAL: best-first order and optimality of the A* loop (C02_statement) are not proved; they are decided per case by "
-         "exhaustive enumeration (lattices above 20000 paths are skipped and counted). " + KKC_NOTE, design="5/C02")
+    technique="Lean 4 proof on the model that the A* n-best search is best-first and optimal over all connectable paths (max-heap "
+              "property of the BinaryHeap replica, exact Viterbi steps of the forward pass, suffix-cover invariant of the loop) + "
+              "exhaustive path enumeration oracle on the implementation's own lattice and scores + exact list equality model vs "
+              "implementation",
+    text="C02 / C02_best_first_optimal: for every input, well-formed dictionary, context, counts and n >= 1, whenever the loop ends "
+         "by itself the list has at most n entries with pairwise different texts, is in non-increasing order of path score, and "
+         "every connectable bos-to-eos path either has its text in the list or the list has n entries none scoring less; "
+         "C02_forward_step_*, C02_is_connectable_path, C02_deterministic as before. The five conjuncts are also checked against "
+         "exhaustive enumeration of every connectable path of the implementation's lattice for every generated case.",
+    note="PARTIAL: termination of the while-let loop (C02_statement: some fuel suffices) is not proved in the model; it is observed "
+         "on every generated case (lattices above 20000 paths are skipped and counted). " + KKC_NOTE, design="5/C02")
 CLAIMED["C03"] = dict(
     engine="lean+corr_kkc+corr_trie",
     technique="Lean 4 lemmas on dictionary look-up soundness in the lattice model + differential run with real tries + oracle: "
